@@ -1542,9 +1542,16 @@ func (s *SweepingProvider) loadRecentlyReprovidedRegions(now time.Time) (*trie.T
 		if r.Error != nil {
 			return nil, r.Error
 		}
-		_, key, err := parseReprovideHistoryKey(r.Key)
+		t, key, err := parseReprovideHistoryKey(r.Key)
 		if err != nil {
 			s.datastore.Delete(s.ctx, datastore.NewKey(r.Key))
+			continue
+		}
+		if t.Add(s.reprovideInterval + s.maxReprovideDelay).Before(now.Add(s.timeUntilScheduled(key))) {
+			// The schedule was rebuilt since this reprovide, its regions and their
+			// time slots may differ from the ones in the history. This region
+			// cannot wait for its next slot without exceeding the maximal delay
+			// between two reprovides.
 			continue
 		}
 		if _, prefixAlreadyInTrie := keyspace.FindPrefixOfKey(regions, key); !prefixAlreadyInTrie {
@@ -1553,6 +1560,24 @@ func (s *SweepingProvider) loadRecentlyReprovidedRegions(now time.Time) (*trie.T
 		}
 	}
 	return regions, nil
+}
+
+// timeUntilScheduled returns the time left until all the scheduled regions
+// overlapping with prefix are due for reprovide.
+func (s *SweepingProvider) timeUntilScheduled(prefix bitstr.Key) time.Duration {
+	s.scheduleLk.Lock()
+	defer s.scheduleLk.Unlock()
+	if p, ok := keyspace.FindPrefixOfKey(s.schedule, prefix); ok {
+		_, t := trie.Find(s.schedule, p)
+		return s.timeUntil(t)
+	}
+	var d time.Duration
+	if subtrie, ok := keyspace.FindSubtrie(s.schedule, prefix); ok {
+		for t := range keyspace.ValuesIter(subtrie, s.order) {
+			d = max(d, s.timeUntil(t))
+		}
+	}
+	return d
 }
 
 // clearReprovideHistory deletes every persisted reprovide-history entry. A
